@@ -248,15 +248,15 @@ impl TypeChecker {
         let Some(root) = Self::place_root_name(&object.node) else {
             return;
         };
-        let is_immutable_var = self
-            .symbols
-            .lookup(root)
+        let root_id = self.symbols.lookup(root);
+        let is_immutable_var = root_id
             .and_then(|id| self.symbols.get(id))
             .map(|sym| matches!(&sym.kind, SymbolKind::Variable(v) if !v.is_mutable))
             .unwrap_or(false);
+        let is_loop_var = root_id.is_some_and(|id| self.loop_var_symbols.contains(&id));
         // NOTE: `self.field = ...` under a plain `self` receiver is not reported here yet:
         // `tests/codegen_snapshots/traits.incn` mutates fields through `self` and is required to typecheck.
-        if is_immutable_var && root != "self" && !self.mutable_bindings.contains(root) {
+        if is_immutable_var && root != "self" && !is_loop_var {
             self.errors.push(errors::mutation_without_mut(root, span));
         }
     }
@@ -554,7 +554,7 @@ impl TypeChecker {
         let elem_ty = self.infer_iterator_element_type(&iter_ty);
 
         self.symbols.enter_scope(ScopeKind::Block);
-        self.symbols.define(Symbol {
+        let loop_var_id = self.symbols.define(Symbol {
             name: for_stmt.var.clone(),
             kind: SymbolKind::Variable(VariableInfo {
                 ty: elem_ty,
@@ -566,7 +566,7 @@ impl TypeChecker {
         });
         // There is no `for mut x in xs` spelling: elements reached through the loop variable stay assignable
         // (`for body in bodies: body.x += dt`), the binding itself stays non-reassignable.
-        self.mutable_bindings.insert(for_stmt.var.clone());
+        self.loop_var_symbols.insert(loop_var_id);
 
         for stmt in &for_stmt.body {
             self.check_statement(stmt);
